@@ -109,7 +109,16 @@ func RunS(r *vres.Report, test string, sc SScenario) {
 		case vrt.Diverged:
 			ToolError("%s: replay diverged: %s (prefix %v)", sc.Name, v.Detail, prefix)
 		case vrt.Horizon:
+			// the execution did not end within the step horizon: threads keep taking steps without
+			// finishing (a spin / retry loop that never exits) - a liveness failure, not a cap
 			horizonHit++
+			cs := vrt.FormatChoices(s.Choices)
+			r.Violate(kp+"/livelock", fmt.Sprintf("execution did not finish within %d scheduling points (threads keep running without making progress): %s (scenario %s, schedule %v)", s.HorizonN, v.Detail, sc.Name, cs),
+				vrt.Preemptions(s.Choices)*1000+len(cs), SReplay{Engine: "S", Test: test, Scenario: sc.Name, Params: sc.Params, Choices: cs, Verdict: "horizon"})
+			if horizonHit >= 3 {
+				// every further execution would spin to the horizon as well: stop this scenario
+				ex.Stop = true
+			}
 			return s.Choices
 		}
 		outcome, key, what := "", "", ""
